@@ -29,8 +29,9 @@ modelrun.register("recheck", "feed", "feedpieces", "specv1", "hashcheck", "hashc
 
 GEN_FILES = []
 modelrun.register("checkpaths", "checker", "findroot")
-EXTRA_TARGETS = ["Extract/ExtractRecheck.vo", "Extract/ExtractCheckPaths.vo", "Proofs/CheckPathsProofs.vo"]
-AREAS = ["recheck", "checkpaths"]
+EXTRA_TARGETS = ["Extract/ExtractRecheck.vo", "Extract/ExtractCheckPaths.vo", "Proofs/CheckPathsProofs.vo",
+                 "Extract/ExtractRecheckInit.vo"]
+AREAS = ["recheck", "checkpaths", "recheckinit"]
 B = 16384
 
 TRUSTED_BASE = [
@@ -45,6 +46,9 @@ TRUSTED_BASE = [
     "(tight bound 2^54); these *_float_* theorems depend on the axioms of Coq's standard library of reals: ClassicalDedekindReals.sig_not_dec, "
     "ClassicalDedekindReals.sig_forall_dec, FunctionalExtensionality.functional_extensionality_dep, Classical_Prop.classic; CPython's int/int "
     "true division is correctly rounded (trusted); the relation is also asserted on every evaluated case",
+    "the composition Model/RecheckInit.v recheck_model (decoded metafile + file system -> total, matched, consumed) and the Coq reference "
+    "encoder Spec/MetafileWF.v are tied by differential execution: recheck_model vs the real Checker run to exhaustion on scratch "
+    "directories (every metafile kind x disk state x root/parent), ref_metafile vs harness/ref/oracle.py ref_metafile (equal decoded values)",
     "mapping of metafile entries to disk paths: hand model Model/CheckPaths.v (Checker.__init__ / find_root / check_paths / "
     "walk_file_tree over three file-system oracles; no file size is an input) tied by differential execution on real scratch "
     "directories (root, per-entry path / length / pieces root, total; payload root and parent; nested same-name entries; damaged states)",
@@ -1210,6 +1214,10 @@ def run(ctx, mode, model_ok):
     tie_small_v1(ctx, mode, model_ok)
     tie_generated(ctx, mode, model_ok)
     tie_checkpaths(ctx, mode, model_ok)
+    # the composition Checker(metafile, path) -> (total, matched, consumed) (Model/RecheckInit.v) and the Coq reference encoder
+    from props import recheck_pipeline
+    recheck_pipeline.tie_pipeline(ctx, mode, model_ok)
+    recheck_pipeline.tie_ref_encoder(ctx, mode, model_ok)
     e2e(ctx, mode)
     # smallest failing inputs first, so that the replay written per kind is the simplest one found
     def weight(f):
